@@ -132,7 +132,7 @@ _EXT = {
  "C09": "a second victim request; intruder messages naming r1, r2 and an unknown ID in any combination; the response data handed to each block hook must be one the genuine responder sent",
  "C10": "the other peer may come first and may be refused by a request hook; a single-worker responder kept busy by an earlier request; a coherent stale-task variant; nothing may run for a retired request of the other peer while the first peer holds the ID; a paused response stays paused",
  "C11": "all messages written to one stream with ToNet and read back one by one with FromNet from a reader with drawn fragment sizes; extension codec values start with the boundaries",
- "C12": "request-ID byte strings of other lengths in well-framed messages; well-formed CBOR with hostile content (new request without root or selector, non-selectors); a complete frame that does not decode is malformed whatever error the decoder names; the stream of a malformed message must be reset",
+ "C12": "request-ID byte strings of other lengths in well-framed messages; well-formed CBOR with hostile content (new request without root or selector, non-selectors, complete requests whose well-known extensions carry null or values of the wrong kind); a complete frame that does not decode is malformed whatever error the decoder names; the stream of a malformed message must be reset",
  "C15": "a ledger between the real queue and the real allocator (a release never exceeds what is reserved and not yet returned; nothing is built without a grant); a call kind whose build function adds nothing; backlog runs (callers outrun the sender)",
  "C16": "same component world as C15",
  "C17": "the order rule compares the block CIDs the receiver computes; backlog runs; more block traffic in big-block runs",
